@@ -84,6 +84,8 @@ impl Project for FileBackedProject {
 
         self.sources.clear();
 
+        #[cfg(feature = "verif")]
+        use crate::verif::fs;
         match fs::read_dir(dir) {
             Ok(files) => {
                 let mut errors = vec![];
@@ -148,6 +150,8 @@ impl Project for FileBackedProject {
     }
 
     fn semantic(&mut self) -> Result<(), Vec<Diagnostic>> {
+        #[cfg(feature = "verif")]
+        crate::verif::source_order(self.sources.keys());
         let library_results: Vec<_> = self
             .sources
             .iter_mut()
